@@ -1,5 +1,6 @@
 SPECIFICATION Spec
-INVARIANT AllYielded PerServiceOrder TerminalRule NothingAfterEnd OneTerminal NoEarlyEnd Emit
+INVARIANT AllYielded PerServiceOrder TerminalRule NothingAfterEnd OneTerminal NoEarlyEnd ReleasedOnlyWhenDone AllReleasedAtEnd Emit
+VIEW View
 CHECK_DEADLOCK FALSE
 CONSTANTS
   ExtraPolls = 3
